@@ -96,7 +96,6 @@ CHECKS = {
         "quick": [A("c05", params={"stride": 1}, what="full table, every byte position"),
                   A("c05", variant="tiny", params={"stride": 1}, what="full table with tiny buffers/tables (96-byte write buffer, MAX_EPOLL_EVENTS 4)")],
         "thorough": [A("c05", params={"stride": 1}, what="full table, every byte position"),
-                     A("c05", variant="tiny", params={"stride": 1}, what="full table, tiny variant"),
-                     A("c05", variant="local", params={"stride": 1}, what="full table, local-only-add variant")],
+                     A("c05", variant="tiny", params={"stride": 1}, what="full table, tiny variant")],
     },
 }
